@@ -1322,6 +1322,8 @@ class Concatenate(CanBehaveLikeAVariable[T]):
             yield sources
             return
         all_values = defaultdict(list)
+        # the combined list exists also when there is nothing to combine (no binding of the child at all): one row, [].
+        all_values[self._id_] = []
         for child_v in self._child_._evaluate_as_value_(sources):
             child_v = copy(child_v)
             for id_, val in child_v.items():
